@@ -1,8 +1,9 @@
 """C04: check configuration (PROPS_ENTRY, consumed by ./check and gen_manifest.py) and the list of lemmas that make up
 the property file (SPEC_ENTRY, consumed by tools/mkprops.py)."""
-PROPS_ENTRY = {'models': ['Model/Queue.v', 'Model/Sound.v'],
+PROPS_ENTRY = {'models': ['Model/Queue.v', 'Model/Sound.v', 'Model/Mmio.v', 'Model/MmioSpec.v'],
  'design_ref': 'DESIGN.md 3 C04',
- 'assumptions': ['LedgerHal is the instrumented platform: every share bounced to a distinct device address, copy-in at share, copy-back at unshare; the driver-side copy of a device-writable buffer is poisoned while it is shared',
+ 'assumptions': ['the directed register-level cases of the MMIO transport (scenario c10-directed-*, monitor 1011) also run under this check: the addresses written to the queue registers are those DMA allocation returned, both layouts, regions in different 4 GiB windows; the platform ledger requires unshare / dealloc to carry the same access_platform flag as share / alloc',
+                 'LedgerHal is the instrumented platform: every share bounced to a distinct device address, copy-in at share, copy-back at unshare; the driver-side copy of a device-writable buffer is poisoned while it is shared',
                  'driver level: the token interface of the sound driver (several requests outstanding, polled in any order) is run under this check too '
                  '(scenario c20snd-nb-*, model Model/Sound.v, monitor 2060 and the ledger lines); its theorems are C20_snd_nb_*']}
 
